@@ -131,7 +131,8 @@ func dumpNTP(o dhcpv6.Option) [][]byte {
 	case *dhcpv6.OptionGeneric:
 		return [][]byte{tagb(uint16(x.OptionCode), 0), x.OptionData}
 	}
-	panic(fmt.Sprintf("harness: unknown NTP suboption %T", o))
+	// an NTP sub-option of any other Go type: its number space was confused with the top-level one
+	return [][]byte{tagb(uint16(o.Code()), 9), []byte(fmt.Sprintf("unexpected sub-option type %T", o))}
 }
 
 func dumpOpt(o dhcpv6.Option) [][]byte {
